@@ -221,3 +221,6 @@ def _known_confirm(prop, prev=None):
 PROPS['C15']['confirm_known'] = _known_confirm('C15')
 PROPS['C06']['confirm_known'] = _known_confirm('C06')
 PROPS['C02']['confirm_known'] = _known_confirm('C02')
+
+
+PROPS['C11'] = _with_extra(PROPS['C11'], direct2.c11_assign_ansistr_run)
